@@ -131,6 +131,29 @@ def ostep (x : XState) (ev : Event) : Option XState :=
       else some { s := s', nacked := x.nacked ++ o.errTo, asyncErrs := x.asyncErrs + (if o.asyncErr then 1 else 0),
                   cbLog := x.cbLog ++ o.cbNil }
 
+/-! ## OpenWriter under a Load fault (C14) -/
+
+/-- `loadSnapshots` when `Directory.Load` fails for the snapshot files of the epochs in `skip`: like unloadable files
+they are logged and skipped (`continue`) — nothing else distinguishes an I/O error from a damaged file there -/
+def reopenSkip (skip : List Nat) (s : State) : Option State :=
+  let ls := (loadOrder s.disk).filter (fun f => !skip.contains f.epoch)
+  match ls.getLast? with
+  | none =>
+      if s.disk.snaps.isEmpty then
+        some { disk := s.disk, pol := { n := s.pol.n }, isOpen := true, lock := true,
+               sidFloor := s.disk.maxSeg + 2, acked := s.acked, readers := s.readers }
+      else none
+  | some f =>
+      some { disk := s.disk, pol := commitAll s.pol.n ls, isOpen := true, lock := true,
+             sidFloor := s.disk.maxSeg + 2, acked := s.acked, readers := s.readers, commits := ls.map (·.epoch),
+             applied := f.k, rootEpoch := f.epoch, nextEpoch := f.epoch + 1,
+             rootSegs := f.segs, lastPersisted := f.epoch }
+
+def stepOpenSkip (skip : List Nat) (s : State) : Option State :=
+  if s.lock = true then some s
+  else if s.isOpen = true then none
+  else reopenSkip skip s
+
 /-! ## the byte level of a snapshot file (C03) -/
 
 abbrev FileBytes := List (BitVec 8)
